@@ -155,6 +155,7 @@ class AioImpl:
             u, off = core.dt_parts(j.datetime)
             out.append("J %d %d %s %d %d %d" % (jid, u, core.s_otz(off), j.attempts, j.failed_attempts,
                                                 int(j.has_attempts_remaining)))
+            core.Impl.check_reported(self, jid, j)
         out.extend(self.events)
         out.append("END")
         self.events = []
